@@ -64,10 +64,11 @@ var apiTexts = map[string]string{
 	"docArr":        ` [ {"a": 1}, [2, 3], "t" ] `,
 	"docBad":        `{"a":[1,}`,
 	"docNum":        `17`,
-	"patchOK":       `[{"op":"add","path":"/a/b/-","value":{"v":[null,"<"]}},{"op":"add","path":"/a/b/2/v/-","value":7},{"op":"copy","from":"/a/b/1","path":"/cp"},{"op":"test","path":"/cp","value":{ "c" : "<x>" }},{"op":"move","from":"/z","path":"/a/n"},{"op":"remove","path":"/k"},{"op":"replace","path":"/a/b/0","value":2}]`,
+	"patchOK":       `[{"op":"add","path":"/nul","value":null},{"op":"add","path":"/a/b/-","value":{"v":[null,"<"]}},{"op":"add","path":"/a/b/2/v/-","value":7},{"op":"copy","from":"/a/b/1","path":"/cp"},{"op":"test","path":"/cp","value":{ "c" : "<x>" }},{"op":"move","from":"/z","path":"/a/n"},{"op":"remove","path":"/k"},{"op":"replace","path":"/a/b/0","value":2}]`,
 	"patchArr":      `[{"op":"add","path":"/1/-","value":{"q":1}},{"op":"copy","from":"/0","path":"/-"},{"op":"test","path":"/2","value":"t"}]`,
 	"patchTst":      `[{"op":"add","path":"/w","value":1},{"op":"test","path":"/a/n","value":"no"}]`,
 	"patchNeg":      `[{"op":"add","path":"/1/-1","value":9},{"op":"remove","path":"/-1"}]`,
+	"patchDeep":     `[{"op":"add","path":"/d/0/d/0/d/0/d/0/d/0/d/0/leaf/-","value":{"deeper":[{"x":[1]}]}}]`,
 	"patchBig":      `[{"op":"add","path":"/n","value":{"big":12345678901234567890123,"e":1e400,"f":1.0}},{"op":"move","from":"/n","path":"/m"},{"op":"test","path":"/m/f","value":1.0}]`,
 	"patchCopyFail": `[{"op":"copy","from":"/a/b","path":"/c1"},{"op":"test","path":"/k","value":"no"}]`,
 	"patchCopyBig":  `[{"op":"copy","from":"/a","path":"/c1"},{"op":"copy","from":"/a","path":"/c2"},{"op":"copy","from":"/a","path":"/c3"}]`,
@@ -107,6 +108,8 @@ func newAPIWorld() *apiWorld {
 	w.optSnap = *w.sharedOpt
 	w.sharedOptS = v5.NewApplyOptions()
 	w.sharedOptS.AccumulatedCopySizeLimit = 12
+	w.bufs["docDeep"] = []byte(deepDoc(12))
+	w.snaps["docDeep"] = string(w.bufs["docDeep"])
 	w.bufs["deepOpen"] = []byte(strings.Repeat("[", 2000))
 	w.snaps["deepOpen"] = string(w.bufs["deepOpen"])
 	w.bufs["deepOver"] = []byte(strings.Repeat("[", 10001) + strings.Repeat("]", 10001))
@@ -130,6 +133,8 @@ func newAPIWorld() *apiWorld {
 		{"P.Apply(docObj)", true, func(w *apiWorld) ([]byte, error) { return w.patches["patchOK"].Apply(B("docObj")) }},
 		{"Parr.Apply(docArr)", true, func(w *apiWorld) ([]byte, error) { return w.patches["patchArr"].Apply(B("docArr")) }},
 		{"P.ApplyIndent(docObj)", true, func(w *apiWorld) ([]byte, error) { return w.patches["patchOK"].ApplyIndent(B("docObj"), "  ") }},
+		{"Pdeep.ApplyIndent(docDeep, tab)", true, func(w *apiWorld) ([]byte, error) { return w.patches["patchDeep"].ApplyIndent(B("docDeep"), "\t") }},
+		{"Pdeep.ApplyIndent(docDeep, two blanks)", true, func(w *apiWorld) ([]byte, error) { return w.patches["patchDeep"].ApplyIndent(B("docDeep"), "  ") }},
 		{"P.ApplyWithOptions(docObj,limit=5)", true, func(w *apiWorld) ([]byte, error) {
 			o := opt()
 			o.AccumulatedCopySizeLimit = 5
@@ -314,7 +319,7 @@ func decodeOnly(b []byte) ([]byte, error) {
 }
 
 func (w *apiWorld) decodePatches() {
-	for _, k := range []string{"patchOK", "patchArr", "patchTst", "patchNeg", "patchCopyFail", "patchCopyBig", "patchBig", "patchS", "patchTstS", "rootPatchS"} {
+	for _, k := range []string{"patchOK", "patchArr", "patchTst", "patchNeg", "patchCopyFail", "patchCopyBig", "patchBig", "patchDeep", "patchS", "patchTstS", "rootPatchS"} {
 		p, err := v5.DecodePatch([]byte(apiTexts[k])) // from a private copy: the Patch must not alias a shared buffer
 		if err != nil {
 			panic("harness patch " + k + ": " + err.Error())
